@@ -11,12 +11,11 @@ The dense reference semantics (`den`, `dims`) below is written from the document
 (slice index fastest, then time, then vector) and is independent of the Coq model: the property
 oracles compare every lookup of a real result with it.
 
-Domain switches (see ASSUMPTIONS of the plugins): the main streams never generate
-  * trailing-singleton shapes (X,Y,Z,1) / (X,Y,Z,T,1) unless INCLUDE_TRAILING1,
-  * merges along time/vector of inputs without a slice dimension unless INCLUDE_SDIM_NONE_MERGE,
-  * subsets along time of 5-D extensions without a slice dimension unless INCLUDE_SDIM_NONE_TIME_SUBSET,
-because the real code raises unrelated exceptions there (reported as findings N1..N5; set
-VERIF_EXT_FINDINGS=1 to generate them)."""
+Regions of the OPEN known findings N1..N4 (known-findings.txt) are kept out of the random streams and are
+covered by corpus cases instead (corpus/C03, corpus/C04):
+  * trailing-singleton shapes (X,Y,Z,1) / (X,Y,Z,T,1)                          (N1, N2, N4)
+  * merges along time/vector of inputs without a slice dimension              (N3)
+`finding_sig_subset` / `finding_sig_merge` give the exact signatures of those regions."""
 import os, sys, copy, itertools
 from fractions import Fraction
 
@@ -29,12 +28,6 @@ CLSNAME = {v: k for k, v in PYCLS.items()}
 PREF = ['GConst', 'VSamples', 'TSamples', 'TSlices', 'VSlices', 'GSlices']            # preference order (C06)
 ERRMAP = {'ValueError': 'EValue', 'IndexError': 'EIndex', 'KeyError': 'EKey', 'TypeError': 'EType',
           'AttributeError': 'EAttr'}
-
-INCLUDE_FINDINGS = os.environ.get('VERIF_EXT_FINDINGS', '') == '1'
-INCLUDE_TRAILING1 = INCLUDE_FINDINGS           # N1, N2, N4
-INCLUDE_SDIM_NONE_MERGE = INCLUDE_FINDINGS     # N3
-INCLUDE_SDIM_NONE_TIME_SUBSET = INCLUDE_FINDINGS   # N5
-
 
 # ------------------------------------------------------------------------------------------ reference semantics
 
@@ -355,8 +348,8 @@ def other_normal_affine(rng, aff, sdim):
 
 
 def gen_shape(rng, tier, ndim=None, sdim='any', force=None):
-    """-> (shape, sdim).  S,T,V in 1..hi (hi = 3 quick / 4 thorough); trailing singleton shapes only when
-    INCLUDE_TRAILING1; force = dict axis -> extent."""
+    """-> (shape, sdim).  S,T,V in 1..hi (hi = 3 quick / 4 thorough); never a trailing singleton dim (finding region);
+    force = dict axis -> extent overrides that."""
     hi = 3 if tier == 'quick' else 4
     ndim = ndim or rng.choice([3, 4, 4, 5, 5, 5])
     if sdim == 'any':
@@ -370,7 +363,7 @@ def gen_shape(rng, tier, ndim=None, sdim='any', force=None):
         sh.append(rng.randint(1, hi))
     for ax, n in (force or {}).items():
         sh[ax] = n
-    if not INCLUDE_TRAILING1 and ndim > 3 and sh[-1] == 1 and not (force and (ndim - 1) in force):
+    if ndim > 3 and sh[-1] == 1 and not (force and (ndim - 1) in force):
         sh[-1] = rng.randint(2, hi)
     return sh, sdim
 
@@ -521,15 +514,13 @@ def gen_merge_case(rng, tier='quick', dim=None, ndim_in=None):
         nd = ndim_in or rng.choice([3, 4, 5])
         force = {dim: 1}
     elif dim == 3:
-        opts = [3, 3, 5] + ([4] if INCLUDE_TRAILING1 else [])
-        nd = ndim_in or rng.choice(opts)
+        nd = ndim_in or rng.choice([3, 3, 5])
         force = {} if nd == 3 else {3: 1}
     else:
-        opts = [3, 4, 4] + ([5] if INCLUDE_TRAILING1 else [])
-        nd = ndim_in or rng.choice(opts)
+        nd = ndim_in or rng.choice([3, 4, 4])
         force = {} if nd < 5 else {4: 1}
     sh, sdim = gen_shape(rng, tier, nd, force=force)
-    if sdim is None and dim >= 3 and not INCLUDE_SDIM_NONE_MERGE:
+    if sdim is None and dim >= 3:          # region of N3
         sdim = rng.choice([0, 1, 2])
     n = rng.randint(2, 5 if tier != 'quick' else 4)
     aff = gen_affine(rng)
@@ -583,8 +574,6 @@ def gen_subset_case(rng, tier='quick'):
     sh, sdim = gen_shape(rng, tier)
     E = gen_ext(rng, tier, shape=sh, sdim=sdim, widen=rng.choice([0.0, 0.3, 0.7]))
     dim = rng.randrange(len(sh))
-    if sdim is None and len(sh) == 5 and dim == 3 and not INCLUDE_SDIM_NONE_TIME_SUBSET:
-        dim = 4
     idx = rng.randrange(sh[dim])
     return {'kind': 'subset/dim%d/%dD%s' % (dim, len(sh), '/slice' if dim == sdim else ''), 'ext': E, 'dim': dim, 'idx': idx}
 
@@ -682,7 +671,40 @@ def oracle_merge(case, obs):
 
 
 def sig_of_exc(obs):
-    return 'exc-' + str(obs.get('exc')) if 'err' in obs else 'wrong-value'
+    return str(obs.get('exc')) if 'err' in obs else 'wrong-value'
+
+
+def trailing1(shape):
+    return len(shape) > 3 and shape[-1] == 1
+
+
+def finding_sig_subset(case, obs):
+    """Exact signature of the open finding N2 when the failure lies in its region, else None."""
+    E, dim = case['ext'], case['dim']
+    sh = E['shape']
+    if obs.get('exc') == 'KeyError' and trailing1(sh) and dim < len(sh) and \
+            ((dim < 3 and dim != E['sdim']) or (dim == 3 and len(sh) == 5)):
+        return 'subset/trailing-singleton/KeyError'
+    return None
+
+
+def finding_sig_merge(case, obs):
+    """Exact signature of the open findings N1 / N3 / N4 when the failure lies in their region, else None."""
+    exts, dim = case['exts'], case['dim']
+    exc = obs.get('exc')
+    sd = case.get('sdim_arg') if case.get('sdim_arg') is not None else exts[0]['sdim']
+    if exc == 'KeyError' and dim == 4 and all(len(E['shape']) == 4 and E['shape'][3] == 1 for E in exts):
+        return 'merge/4d-t1-along-vector/KeyError'
+    if exc == 'TypeError' and sd is None and dim in (3, 4):
+        return 'merge/no-slice-dim/TypeError'
+    if exc == 'ValueError' and any(trailing1(E['shape']) for E in exts) and \
+            str(obs.get('msg', '')).startswith('The period must be greater than one and less than'):
+        return 'merge/trailing-singleton-simplify/ValueError'
+    return None
+
+
+def shape_family(shape):
+    return '%dD%s' % (len(shape), '-trailing1' if trailing1(shape) else '')
 
 
 def shrink_E(E):
@@ -716,8 +738,6 @@ class SubsetPart:
         for _ in range(n_all):
             E = gen_ext(rng, tier, widen=rng.choice([0.0, 0.5]))
             for c in gen_subset_all(E):
-                if (E['sdim'] is None and len(E['shape']) == 5 and c['dim'] == 3 and not INCLUDE_SDIM_NONE_TIME_SUBSET):
-                    continue
                 cases.append(c)
         for _ in range(30 if tier == 'quick' else 200):
             E = gen_ext(rng, tier)
@@ -725,8 +745,6 @@ class SubsetPart:
         for c in cases:
             if c['kind'] == 'subset/err-dim' and c['dim'] < len(c['ext']['shape']):
                 c['kind'] = 'subset/dim%d/%dD' % (c['dim'], len(c['ext']['shape']))
-                if (c['ext']['sdim'] is None and len(c['ext']['shape']) == 5 and c['dim'] == 3 and not INCLUDE_SDIM_NONE_TIME_SUBSET):
-                    c['dim'] = 4
         return cases
 
     run_impl = staticmethod(run_subset)
@@ -743,7 +761,8 @@ class SubsetPart:
 
     @staticmethod
     def signature(case, obs, msg):
-        return 'subset/' + sig_of_exc(obs)
+        return finding_sig_subset(case, obs) or \
+            'subset/%s/dim%d/%s' % (shape_family(case['ext']['shape']), case['dim'], sig_of_exc(obs))
 
     @staticmethod
     def nontrivial(case, obs):
@@ -798,7 +817,8 @@ class MergePart:
 
     @staticmethod
     def signature(case, obs, msg):
-        return 'merge/' + sig_of_exc(obs)
+        return finding_sig_merge(case, obs) or \
+            'merge/%s/dim%d/%s' % (shape_family(case['exts'][0]['shape']), case['dim'], sig_of_exc(obs))
 
     @staticmethod
     def nontrivial(case, obs):
